@@ -38,8 +38,7 @@ class _GraphIO(collections.UserList["_core.Value"]):
         self._ref_counter: collections.Counter[_core.Value] = collections.Counter()
         if initlist is not None:
             initlist = tuple(initlist)  # Create a copy in case initlist is a generator
-            for value in initlist:
-                self._set_graph(value)
+            self._set_graph_all(initlist)
         super().__init__(initlist)
         self._check_invariance()
 
@@ -262,10 +261,15 @@ class GraphInitializers(collections.UserDict[str, "_core.Value"]):
         if kwargs:
             data.update(kwargs)
         self._graph = graph
-        for value in data.values():
-            self._set_graph(value)
-
-        super().__init__(data)
+        try:
+            # __setitem__ validates and claims the values one by one
+            super().__init__(data)
+        except BaseException:
+            # Claim all of the values or none of them
+            for value in self.data.values():
+                self._maybe_unset_graph(value)
+            self.data.clear()
+            raise
 
     def _check_graph(self, value: _core.Value) -> None:
         """Raise if the value is owned by a different graph."""
